@@ -57,6 +57,15 @@ pub fn judge_one(ctx: &mut Ctx, m: &MSym, k: usize) -> Option<(Lib, Orbifold)> {
                     "curvature = 2 x Euler characteristic of the orbifold named by the symbol",
                 );
             }
+            if p.cones == orb.cones && p.boundaries == orb.boundaries && p.handles == orb.handles && p.crosscaps == orb.crosscaps && p.oriented != orb.oriented {
+                ctx.violation(
+                    "boundary-components-read-in-inconsistent-directions",
+                    "delaney2d::orbifold_symbol",
+                    input(),
+                    json!({"orbifold_symbol": lib.symbol, "model_components_with_the_surface_on_the_left": format!("{:?}", orb.oriented)}),
+                    "on an orientable orbifold all boundary components are read with the same orientation of the surface (the symbol is determined up to reversing ALL of them)",
+                );
+            }
             if p.cones != orb.cones || p.boundaries != orb.boundaries || p.handles != orb.handles || p.crosscaps != orb.crosscaps {
                 ctx.violation(
                     "orbifold-symbol-differs-from-model-orbifold",
@@ -113,12 +122,29 @@ pub fn judge(ctx: &mut Ctx, m: &MSym, perms: &[Vec<usize>], k: usize) {
         None => return,
     };
     let base_parsed = orbifold::parse_symbol(&lib.symbol);
+    // no chiral boundary component: "up to reversal" leaves no freedom, the text itself must not change
+    let achiral = base_parsed.as_ref().map_or(false, |p| p.boundaries.iter().all(|c| !orbifold::is_chiral(c)));
+    if achiral {
+        ctx.count("symbols_without_chiral_boundary_component");
+    } else if base_parsed.as_ref().map_or(false, |p| p.oriented.is_some() && p.boundaries.len() >= 2) {
+        ctx.count("orientable_with_two_or_more_boundary_components_one_chiral");
+    }
     // renumberings
     for p in perms {
         let mp = m.renumbered(p);
         ctx.eval();
         match query(&mp, k % 3 == 0) {
             Ok(l2) => {
+                if l2.curvature == lib.curvature && orbifold::parse_symbol(&l2.symbol) == base_parsed && achiral && l2.symbol != lib.symbol {
+                    ctx.violation(
+                        "orbifold-symbol-text-changes-under-renumbering",
+                        "delaney2d::orbifold_symbol",
+                        json!({"symbol": m.to_text(), "renumbered": mp.to_text()}),
+                        json!({"orbifold_symbol": [lib.symbol, l2.symbol]}),
+                        "no boundary component of this orbifold changes when reversed, so the symbol is unchanged as a text",
+                    );
+                    break;
+                }
                 if l2.curvature != lib.curvature || orbifold::parse_symbol(&l2.symbol) != base_parsed {
                     ctx.violation(
                         "not-invariant-under-renumbering",
@@ -147,6 +173,15 @@ pub fn judge(ctx: &mut Ctx, m: &MSym, perms: &[Vec<usize>], k: usize) {
     }
     match query(&md, false) {
         Ok(l2) => {
+            if l2.curvature == lib.curvature && orbifold::parse_symbol(&l2.symbol) == base_parsed && achiral && l2.symbol != lib.symbol {
+                ctx.violation(
+                    "orbifold-symbol-text-changes-under-dualisation",
+                    "delaney2d::orbifold_symbol",
+                    json!({"symbol": m.to_text(), "dual": md.to_text()}),
+                    json!({"orbifold_symbol": [lib.symbol, l2.symbol]}),
+                    "no boundary component of this orbifold changes when reversed, so the symbol is unchanged as a text",
+                );
+            }
             if l2.curvature != lib.curvature || orbifold::parse_symbol(&l2.symbol) != base_parsed {
                 ctx.violation(
                     "not-invariant-under-dualisation",
